@@ -1,6 +1,7 @@
 mod common;
 mod corpus;
 mod exp;
+mod h_bulk;
 mod h_c01;
 mod h_cards;
 mod h_content;
@@ -69,8 +70,10 @@ fn main() {
         "C24" => h_c01::run_c24(tier, replay),
         "C25" => h_ticket::run(tier, replay),
         "C26" => h_c01::run_c26(tier, replay),
+        "C40" => h_bulk::run(tier, replay),
         "C42" => h_c01::run_c42(tier, replay),
         "C27" => h_cards::run(tier, replay),
+        "C28" => h_c01::run_c28(tier, replay),
         "C30" => p_codec::run_c30(tier, replay),
         "C31" => p_codec::run_c31(tier, replay),
         "C32" => p_query::run(tier, replay),
@@ -91,6 +94,7 @@ fn worker(kind: &str) {
     match kind {
         "c32" => p_query::worker(),
         "hist" => hist::worker(),
+        "c40" => h_bulk::worker(),
         "c27" => h_cards::worker(),
         "c25" => h_ticket::worker(),
         "c18" => h_readonly::worker(),
